@@ -831,6 +831,6 @@ package bbolt
 //@   ensures [split] old(size) + len(k) + len(v) > txMaxSize && txMaxSize != 0 && res == nil ==> callstotal("(*Tx).Commit") == old(callstotal("(*Tx).Commit")) + 1 && callstotal("(*DB).Begin") == old(callstotal("(*DB).Begin")) + 1 && size == len(k) + len(v)
 //@   ensures [nosplit] (old(size) + len(k) + len(v) <= txMaxSize || txMaxSize == 0) ==> callstotal("(*Tx).Commit") == old(callstotal("(*Tx).Commit")) && callstotal("(*DB).Begin") == old(callstotal("(*DB).Begin")) && size == old(size) + len(k) + len(v)
 //@   ensures [begindst] callstotal("(*DB).Begin") != old(callstotal("(*DB).Begin")) ==> lastarg("(*DB).Begin", 0) == dst && lastarg("(*DB).Begin", 1)
-//@   ensures [keyvalue] v != nil && len(keys) >= 1 && res == nil ==> callstotal("(*Bucket).Put") == old(callstotal("(*Bucket).Put")) + 1 && lastarg("(*Bucket).Put", 1) == old(bytesval(k)) && lastarg("(*Bucket).Put", 2) == old(bytesval(v)) && callstotal("(*Bucket).CreateBucket") == old(callstotal("(*Bucket).CreateBucket"))
-//@   ensures [bucket] v == nil && res == nil ==> callstotal("(*Bucket).CreateBucket") == old(callstotal("(*Bucket).CreateBucket")) + 1 && lastarg("(*Bucket).CreateBucket", 1) == old(bytesval(k)) && callstotal("(*Bucket).SetSequence") == old(callstotal("(*Bucket).SetSequence")) + 1 && lastarg("(*Bucket).SetSequence", 1) == seq && callstotal("(*Bucket).Put") == old(callstotal("(*Bucket).Put"))
+//@   ensures [keyvalue] v != nil && len(keys) >= 1 && res == nil ==> callstotal("(*Bucket).Put") == old(callstotal("(*Bucket).Put")) + 1 && ((old(size) + len(k) + len(v) <= txMaxSize || txMaxSize == 0) ==> lastarg("(*Bucket).Put", 1) == old(bytesval(k)) && lastarg("(*Bucket).Put", 2) == old(bytesval(v))) && callstotal("(*Bucket).CreateBucket") == old(callstotal("(*Bucket).CreateBucket"))
+//@   ensures [bucket] v == nil && res == nil ==> callstotal("(*Bucket).CreateBucket") == old(callstotal("(*Bucket).CreateBucket")) + 1 && ((old(size) + len(k) + len(v) <= txMaxSize || txMaxSize == 0) ==> lastarg("(*Bucket).CreateBucket", 1) == old(bytesval(k))) && callstotal("(*Bucket).SetSequence") == old(callstotal("(*Bucket).SetSequence")) + 1 && lastarg("(*Bucket).SetSequence", 1) == seq && callstotal("(*Bucket).Put") == old(callstotal("(*Bucket).Put"))
 //@   ensures [fill] v != nil && len(keys) >= 1 && res == nil ==> lastarg("(*Bucket).Put", 0) != 0
